@@ -220,3 +220,116 @@ def mark_transparency(run):
                             core.RUN.concretise = None
             prove('%s:every-cursor-transparent' % pname, nbad == 0, clause='%d cursor positions, %d where the mark changed the answer' % (ntot, nbad), path=path)
     core.explore(lambda: None, lambda p, out: go(p))
+
+
+# ---------------------------------------------------------------------------
+# C13 on lines that hold text which is not ASCII: the parser counts columns in UTF-8 bytes, the text and the cursor in characters
+
+WIDE_PAIRS = [
+    # (label, statements joined by `;`, the same statements one per line)
+    ('string-before-a-binding-and-its-read', 's_ = "ééééééééé"; value_ = 1; print(value_, s_)\n',
+     's_ = "ééééééééé"\nvalue_ = 1\nprint(value_, s_)\n'),
+    ('identifiers-that-are-not-ascii', 'größe = 1; länge = größe; print(länge, größe, undefined_a)\n',
+     'größe = 1\nlänge = größe\nprint(länge, größe, undefined_a)\n'),
+    ('in-a-function-after-a-docstring', 'def f_(a_):\n    "日本語"; b_ = a_; unused_v = b_; return b_\n',
+     'def f_(a_):\n    "日本語"\n    b_ = a_\n    unused_v = b_\n    return b_\n'),
+    ('import-after-a-string', 's_ = "€€"; import os; import sys as unused_m; print(os.sep, s_)\n',
+     's_ = "€€"\nimport os\nimport sys as unused_m\nprint(os.sep, s_)\n'),
+    ('call-arguments-after-text', 'def g_(x_): return x_\nr_ = g_("\U0001f600\U0001f600"); t_ = g_(r_); print(t_, undefined_b)\n',
+     'def g_(x_): return x_\nr_ = g_("\U0001f600\U0001f600")\nt_ = g_(r_)\nprint(t_, undefined_b)\n'),
+]
+
+WIDE_REPLAY = '''import sys; sys.path.insert(0, %(repo)r)
+from supp.assistant import assist, location
+from supp.linter import lint
+from supp.project import Project
+a, b = %(a)r, %(b)r
+p = Project(['/nonexistent'])
+print(a); print(b)
+print('lint, joined :', [d[:4] for d in lint(p, a)])
+print('lint, by line:', [d[:4] for d in lint(p, b)])
+pa, pb = %(pa)r, %(pb)r
+ra, rb = assist(p, a, pa, 'f.py')[1], assist(p, b, pb, 'f.py')[1]
+print('names offered at', pa, 'only in one layout:', sorted(set(ra) ^ set(rb)))
+print('definitions from', pa, ':', location(p, a, pa, 'f.py'), '| from', pb, ':', location(p, b, pb, 'f.py'))
+print(%(verdict)r)
+'''
+
+
+@harness(['C13', 'C12'], 'supp.util.Source.tree + supp.assistant.assist / location / supp.linter.lint [two layouts of lines that hold non-ASCII text]',
+         bounded='5 pairs (statements joined by `;` / one per line) with string literals and identifiers that are not ASCII (2-, 3- and 4-byte characters) left of '
+                 'bindings, reads and imports; the pairs parse to equal trees; every name read x assist and location, lint')
+def wide_character_layouts(run):
+    """BOUNDED: C13 where the column of the parser (UTF-8 bytes) and the column of the text (characters) differ: at corresponding reads of the
+    two layouts assist offers the same names and go-to-definition lists the corresponding bindings, lint reports the same (code, message)
+    list at corresponding tokens.  Positions are taken from the tokenizer, which counts characters.  Not counted as proved."""
+    import io
+    import keyword
+    import tokenize
+    import supp.assistant as A
+    import supp.linter as L
+    import supp.project as Pj
+
+    def names(text):
+        return [(t.string, t.start, t.end) for t in tokenize.generate_tokens(io.StringIO(text).readline)
+                if t.type == tokenize.NAME and not keyword.iskeyword(t.string)]
+
+    def reads(text):
+        out = set()
+        lines = text.split('\n')
+        for n in ast.walk(ast.parse(text)):
+            if isinstance(n, ast.Name) and isinstance(n.ctx, ast.Load):
+                out.add((n.lineno, len(lines[n.lineno - 1].encode('utf-8')[:n.col_offset].decode('utf-8'))))
+        return out
+
+    def go(path):
+        for label, a, b in WIDE_PAIRS:
+            same = ast.dump(ast.parse(a)) == ast.dump(ast.parse(b))
+            ta, tb = names(a), names(b)
+            prove('%s:the-two-layouts-are-one-program' % label, same and [t[0] for t in ta] == [t[0] for t in tb] and
+                  any(len(l.encode('utf-8')) != len(l) for l in a.split('\n')), kind='lemma',
+                  clause='equal trees, the same name tokens in the same order, and text that is not ASCII', path=path)
+            if not same:
+                continue
+            project = Pj.Project(['/nonexistent'])
+            ia = {t[1]: k for k, t in enumerate(ta)}
+            ib = {t[1]: k for k, t in enumerate(tb)}
+
+            def diag(text, index):
+                return [(d[0], d[1], index.get((d[2], d[3]), 'no name token at (%d, %d)' % (d[2], d[3]))) for d in L.lint(project, text)]
+            da, db = diag(a, ia), diag(b, ib)
+            bad = None
+            first = (ta[0][2], tb[0][2])
+            if da != db:
+                bad = ('lint reports %r for the joined layout and %r for the other (code, message, ordinal of the name token at the position)' % (da, db), first)
+            ra = reads(a)
+            n = 0
+            for k, (tok, start, end) in enumerate(ta):
+                if bad or start not in ra:
+                    continue
+                n += 1
+                pa, pb = end, tb[k][2]
+                ga, gb = A.assist(project, a, pa, 'f.py'), A.assist(project, b, pb, 'f.py')
+                if ga != gb:
+                    bad = ('at the end of the read of %s assist gives prefix %r / %r and names that differ by %r' % (
+                        tok, ga[0], gb[0], sorted(set(ga[1]) ^ set(gb[1]))), (pa, pb))
+                    break
+
+                def defs(text, pos, index):
+                    out = []
+                    for r in A.location(project, text, pos, 'f.py'):
+                        for x in (r if isinstance(r, list) else [r]):
+                            out.append(index.get(tuple(x['loc']), 'no name token at %r' % (tuple(x['loc']),)) if x.get('file') == 'f.py' else x.get('file'))
+                    return out
+                la, lb = defs(a, pa, ia), defs(b, pb, ib)
+                if la != lb:
+                    bad = ('go-to-definition from the read of %s lists the name tokens %r / %r' % (tok, la, lb), (pa, pb))
+                    break
+            prove('%s:reads-were-compared' % label, n >= 2 or bad is not None, kind='lemma', clause='at least two reads per pair [%d]' % n, path=path)
+            if bad:
+                core.RUN.concretise = lambda model, ob, a=a, b=b, bad=bad: {'input': a, 'script': WIDE_REPLAY % {
+                    'repo': core.REPO, 'a': a, 'b': b, 'pa': tuple(bad[1][0]), 'pb': tuple(bad[1][1]),
+                    'verdict': 'REPRODUCED: ' + bad[0]}}
+            prove('%s:the-two-layouts-are-answered-alike' % label, bad is None, clause='%s\n%s%s' % (bad[0] if bad else '', a, b), path=path)
+            core.RUN.concretise = None
+    core.explore(lambda: None, lambda p, out: go(p))
